@@ -155,6 +155,14 @@ Theorem C11_permutation_served : forall a a',
        /\ Forall (fun d => d_aux d = false) p /\ Forall (fun d => d_aux d = true) x.
 Proof. exact permutation_served. Qed.
 
+(** NAMELESS.  A request that names no method at all (method_request_string stays None: a SOAP Fault
+    element sent as the request) runs nothing and is not found; every other request is decided by [dispatch],
+    to which all theorems above apply *)
+Theorem C11_nameless : forall tns t ps w,
+  (exists r, w = Named r /\ dispatch_wire tns t ps w = dispatch tns t ps r)
+  \/ (w = Nameless /\ dispatch_wire tns t ps w = NotFound).
+Proof. exact wire_cases. Qed.
+
 (** ------------------------------------------------------------------ non-vacuity *)
 
 (** x_app = [S1 {foo, Foo, foobar (+ GET /api/<x>)}; S2 auxiliary {foo}] constructs; "foo" runs 1 then 4 *)
@@ -239,3 +247,8 @@ Proof.
     + apply server_iff. vm_compute. eauto.
     + vm_compute. discriminate.
 Qed.
+
+Example C11_ex_nameless :
+  dispatch_wire x_tns x_table x_ps Nameless = NotFound
+  /\ dispatch_wire x_tns x_table x_ps (Named (RDictKey x_foo)) = Invoked [1; 4].
+Proof. split; vm_compute; reflexivity. Qed.
